@@ -165,6 +165,13 @@ func main() {
 						funcrefs[fname(g)] = true
 					}
 				}
+				if u, ok := ins.(*ssa.UnOp); ok && u.Op == token.MUL {
+					// `t := *v` on a *decimal.Big copies the struct but SHARES the coefficient's word array with v:
+					// whatever is then done to the copy (RoundToInt, Quantize ...) writes into the caller's number
+					if nt, ok := u.Type().(*types.Named); ok && nt.Obj().Name() == "Big" && nt.Obj().Pkg() != nil && strings.HasSuffix(nt.Obj().Pkg().Path(), "ericlagergren/decimal") {
+						writes["deccopy:"+root(u.X, 0)] = true
+					}
+				}
 				if _, isGo := ins.(*ssa.Go); isGo {
 					// a goroutine started by the library: its panics escape the recover of the entry point and its
 					// writes are concurrent with the caller's
